@@ -338,7 +338,9 @@ PROPS = {
                 "programs; every-byte / sampled truncations and byte mutations (NUL, 0x80-0xFF, delimiters) of examples/*.gr and tests/*.gr; "
                 "(formatfam2.go) every ordered pair of `:` with the other binary operators in plain / index / map / call context, and parameter lists of "
                 "func / named func / macro / lambda with 44 kinds of token (strings, numbers, keywords, operators, comments, ILLEGAL and NUL bytes, `..`) in "
-                "every position, with every truncation of the short ones. "
+                "every position, with every truncation of the short ones; every ordered pair of the 35 tokens the alphabet lacks (!= <= > >= >> % false continue first rest "
+                "print println log error catch unquote del, raw string, malformed numbers, NUL, 0xff, backslash, stray quotes and comment ends) with every token, "
+                "spaced and glued; nests of 37 wrapping constructs 12 and 40 levels deep and 60 random mixed nests. "
                 "The statement also checks, on the real lexer's streams, the two lexer facts (StreamWF) the no-panic theorem assumes. "
                 "non-trivial = non-empty tree, an error or a continuation; distinct = distinct source text.",
         "trusted_base": COMMON_TB + _FRONT_TB,
@@ -360,7 +362,7 @@ PROPS = {
         "rule": _FRONT_RULE + " parse15 suite: grammar-generated valid programs (1-3 statements, depth <=3) and the shipped examples; for each, "
                 "EVERY token-boundary cut, the cut just before the closing quote of every string and 5 cuts inside every block comment "
                 "(case `<program>@<k>`: line mode on the prefix; hypothesis of part 2 decided by Front.cutKind on the file-mode stream of the "
-                "whole program: bracket depth > 0, after a binary operator, after the opening and before the closing quote of a string, after the `/*` "
+                "whole program: bracket depth > 0, after a binary operator, after `.` or `=>`, after the opening and before the closing quote of a string, after the `/*` "
                 "and before the end of a block comment), plus the whole program and a quarter of the prefixes as plain cases for part 1; "
                 "(parse15fam2.go) 104 hand-written valid programs, one per production and nesting the random generator does not produce (comments inside "
                 "brackets, parameter lists, else-if chains, multi-line brackets, every builtin, dot forms, escapes, comments starting with `/*/`), each with "
@@ -395,7 +397,9 @@ PROPS = {
                 "parent/child position (plain, index, map, call, open-ended), parameter lists with 44 kinds of token in every position, 34 kinds of operand "
                 "on either side of the dot index / [ ] / call, a comment (line, block, multi-line) between every pair of 12 statement kinds with every "
                 "combination of separators at top level and in 11 kinds of block (function, if / else / else-if, for, lambda, macro, blocks inside call "
-                "arguments, arrays, map values), and statement pairs x 7 separators inside 19 kinds of nested block (sampled 1/19 in the quick tier). Tree equality ignores the two layout flags of comments, and "
+                "arguments, arrays, map values), statement pairs x 7 separators inside 19 kinds of nested block (sampled 1/19 in the quick tier), and nests of 37 wrapping "
+                "constructs 12 and 40 levels deep plus 60 random mixed nests. The class repeated-associative-operator-on-the-right is decided exactly: the "
+                "re-parsed tree equals the original up to re-association of chains of one associative operator. Tree equality ignores the two layout flags of comments, and "
                 "statement-level comments in compact mode. non-trivial = error-free non-empty program.",
         "trusted_base": COMMON_TB + _FRONT_TB,
         "assumptions": ["as C08", "strconv.IsPrint for runes >= 0x80 is a generated table (lean/Grol/Generated/IsPrint.lean)"],
@@ -409,7 +413,8 @@ PROPS = {
         "suites": ["format03"],
         "rule": _FRONT_RULE + " format03 suite: same cases as the format suite; statement = second-pass text byte-identical to the first "
                 "(normal and compact), normal text ends with exactly one newline, and (every 40th case) same bytes after token.Init() reset the "
-                "interning table. Map iteration order cannot be exhibited by the pure model (Order slice is what is printed).",
+                "interning table, and (every 400th error-free case, field F.x, formatfam3.go) same bytes from a FRESH PROCESS (subcommand fmtchild of the harness binary). "
+                "Map iteration order cannot be exhibited by the pure model (Order slice is what is printed).",
         "trusted_base": COMMON_TB + _FRONT_TB,
         "assumptions": ["as C02"],
     },
